@@ -53,7 +53,9 @@ class FlipTable:
 def memo_invariants(anon, B, snapshot=None, sample_rng=None, limit=400):
     """M3: structural invariants of the live memo at a quiescent point.
     Returns (problem or None, new snapshot of sampled entries for the write-once check)."""
-    cache = anon.cache
+    cache = getattr(anon, "cache", None)
+    if cache is None or not hasattr(cache, "items"):
+        return "UNREACHED", snapshot
     L = anon.length
     items = None
     n = len(cache)
